@@ -69,13 +69,17 @@ Dgram(d) ==
       msg == MsgFor(c, CcByte(d.cc), body)
   IN IF ~InSession
      THEN IF d.kind = "garbage"
-          THEN CASE (d.call + d.n) % 4 = 0 -> B(<<6, 0, 255, 7, 6, 0, 1, 2>>)                                  \* too short
+          THEN CASE (d.call + d.n) % 8 = 4 -> B(<<6, 0, 255>>)                                                \* shorter than an RMCP header
+                 [] (d.call + d.n) % 4 = 0 -> B(<<6, 0, 255, 7, 6, 0, 1, 2>>)                                  \* too short
                  [] (d.call + d.n) % 4 = 3 -> B(<<6, 0, 255, 6, 0, 0, 17, 190, 64, 0, 0, 16, 0, 0, 17, 190, 0, 0, 0, 0, 129, 0, 0, 0, 0, 0, 0, 0>>)  \* ASF presence pong
                  [] (d.call + d.n) % 4 = 1 -> AddByte(NullWrapper(0, msg), 18, 1)                              \* checksum 1 wrong
                  [] OTHER -> AddByte(NullWrapper(0, msg), -1, 1)                    \* checksum 2 wrong
           ELSE NullWrapper(0, msg)
      ELSE CASE d.kind = "garbage" ->
-                 (CASE (d.call + d.n) % 3 = 0 -> B(<<6, 0, 255, 7, 6, 192, 1, 2, 3>>)
+                 (CASE (d.call + d.n) % 7 = 3 -> B(<<>>)                                               \* an empty datagram
+                    [] (d.call + d.n) % 7 = 5 -> B(<<6, 0>>)                                              \* shorter than an RMCP header
+                    [] (d.call + d.n) % 7 = 6 -> B(<<7, 0, 255, 7>>)                                      \* not RMCP version 1
+                    [] (d.call + d.n) % 3 = 0 -> B(<<6, 0, 255, 7, 6, 192, 1, 2, 3>>)
                     [] (d.call + d.n) % 3 = 1 -> Trunc(SessPacket(S, sq, msg, iv), 30)
                     [] OTHER -> SessPacket(S, sq, AddByte(msg, 2, 1), iv))
             [] d.kind = "badsig"   -> SessPacketWith(S, 192, Var("sidM"), sq, msg, iv, B(Repeat(7, 20)), Ref("K2"))
